@@ -510,4 +510,256 @@ theorem oneTailedSolution_in_bounds : ∀ (xs : List F) (ds : List (F × F)) (sc
         | succ k => simpa using ih k (by simpa using hk) (by simpa using hd)
 end
 
+/-! ### whole solutions, pointwise: every coordinate related to ITS input and ITS range -/
+section
+variable {F : Type}
+
+theorem zipDomainM_pointwise (f : F → F × F → Option F) (P : F × F → F → F → Prop)
+    (hf : ∀ x d y, f x d = some y → P d x y) :
+    ∀ (xs : List F) (ds : List (F × F)) (ys : List F), zipDomainM f xs ds = some ys →
+      ys.length = xs.length ∧
+      ∀ k (hk : k < ys.length) (hx : k < xs.length) (hd : k < ds.length), P ds[k] xs[k] ys[k]
+  | [], [], ys, h => by simp [zipDomainM] at h; subst h; simp
+  | [], _ :: _, ys, h => by simp [zipDomainM] at h; subst h; simp
+  | _ :: _, [], ys, h => by simp [zipDomainM] at h; subst h; simp
+  | x :: xs, d :: ds, ys, h => by
+    simp only [zipDomainM] at h
+    split at h
+    · rename_i y ys' hy hys
+      injection h with h; subst h
+      obtain ⟨hl, hp⟩ := zipDomainM_pointwise f P hf xs ds ys' hys
+      refine ⟨by simp [hl], ?_⟩
+      intro k hk hx hd
+      cases k with
+      | zero => simpa using hf x d y hy
+      | succ k => simpa using hp k (by simpa using hk) (by simpa using hx) (by simpa using hd)
+    · cases h
+
+theorem zipDomain_pointwise (f : F → F × F → F) (P : F × F → F → F → Prop) :
+    ∀ (xs : List F) (ds : List (F × F)), (∀ x, ∀ d ∈ ds, P d x (f x d)) →
+      ∀ k (hk : k < (zipDomain f xs ds).length) (hx : k < xs.length) (hd : k < ds.length),
+        P ds[k] xs[k] (zipDomain f xs ds)[k]
+  | [], [], _ => by simp [zipDomain]
+  | [], _ :: _, _ => by simp [zipDomain]
+  | _ :: _, [], _ => by simp
+  | x :: xs, d :: ds, hf => by
+    intro k hk hx hd
+    cases k with
+    | zero => simpa [zipDomain] using hf x d (by simp)
+    | succ k =>
+      have := zipDomain_pointwise f P xs ds (fun x' d' hd' => hf x' d' (by simp [hd'])) k
+        (by simpa [zipDomain] using hk) (by simpa using hx) (by simpa using hd)
+      simpa [zipDomain] using this
+
+/-- An operator that returns every inside coordinate unchanged returns an all-inside solution unchanged. -/
+theorem zipDomainM_fixed (f : F → F × F → Option F) (I : F × F → F → Prop)
+    (hfix : ∀ x d, I d x → f x d = some x) :
+    ∀ (ys : List F) (ds : List (F × F)),
+      (∀ k (hk : k < ys.length) (hd : k < ds.length), I ds[k] ys[k]) → zipDomainM f ys ds = some ys
+  | [], [], _ => by simp [zipDomainM]
+  | [], _ :: _, _ => by simp [zipDomainM]
+  | _ :: _, [], _ => by simp [zipDomainM]
+  | y :: ys, d :: ds, h => by
+    have h0 := hfix y d (h 0 (by simp) (by simp))
+    have ht := zipDomainM_fixed f I hfix ys ds (fun k hk hd =>
+      h (k + 1) (by simpa using hk) (by simpa using hd))
+    simp [zipDomainM, h0, ht]
+
+theorem zipDomain_fixed (f : F → F × F → F) (I : F × F → F → Prop)
+    (hfix : ∀ x d, I d x → f x d = x) :
+    ∀ (ys : List F) (ds : List (F × F)),
+      (∀ k (hk : k < ys.length) (hd : k < ds.length), I ds[k] ys[k]) → zipDomain f ys ds = ys
+  | [], [], _ => by simp [zipDomain]
+  | [], _ :: _, _ => by simp [zipDomain]
+  | _ :: _, [], _ => by simp [zipDomain]
+  | y :: ys, d :: ds, h => by
+    have h0 := hfix y d (h 0 (by simp) (by simp))
+    have ht := zipDomain_fixed f I hfix ys ds (fun k hk hd =>
+      h (k + 1) (by simpa using hk) (by simpa using hd))
+    simp [zipDomain, h0, ht]
+end
+
+section
+variable {F : Type} [Add F] [Sub F] [Mul F] [Div F] [LT F] [DecidableLT F] [OfNat F 3]
+
+theorem oneTailedSolution_pointwise (P : F × F → F → F → Prop)
+    (hf : ∀ (a b : F) (script : List F) (x y : F) (rest : List F),
+      oneTailedLoop a b script x = some (y, rest) → P (a, b) x y) :
+    ∀ (xs : List F) (ds : List (F × F)) (script ys rest : List F),
+      oneTailedSolution xs ds script = some (ys, rest) →
+      ys.length = xs.length ∧
+      ∀ k (hk : k < ys.length) (hx : k < xs.length) (hd : k < ds.length), P ds[k] xs[k] ys[k]
+  | [], [], _, ys, _, h => by simp [oneTailedSolution] at h; obtain ⟨rfl, _⟩ := h; simp
+  | [], _ :: _, _, ys, _, h => by simp [oneTailedSolution] at h; obtain ⟨rfl, _⟩ := h; simp
+  | _ :: _, [], _, ys, _, h => by simp [oneTailedSolution] at h; obtain ⟨rfl, _⟩ := h; simp
+  | x :: xs, d :: ds, script, ys, rest, h => by
+    simp only [oneTailedSolution] at h
+    cases h1 : oneTailedLoop d.1 d.2 script x with
+    | none => simp [h1] at h
+    | some r1 =>
+      obtain ⟨y, s'⟩ := r1
+      simp only [h1] at h
+      cases h2 : oneTailedSolution xs ds s' with
+      | none => simp [h2] at h
+      | some r2 =>
+        obtain ⟨ys', s''⟩ := r2
+        simp only [h2, Option.some.injEq, Prod.mk.injEq] at h
+        obtain ⟨rfl, _⟩ := h
+        obtain ⟨hl, hp⟩ := oneTailedSolution_pointwise P hf xs ds s' ys' s'' h2
+        refine ⟨by simp [hl], ?_⟩
+        intro k hk hx hd
+        cases k with
+        | zero => simpa using hf d.1 d.2 script x y s' h1
+        | succ k => simpa using hp k (by simpa using hk) (by simpa using hx) (by simpa using hd)
+
+theorem oneTailedSolution_fixed (I : F × F → F → Prop)
+    (hfix : ∀ (a b : F) (script : List F) (x : F), I (a, b) x → oneTailedLoop a b script x = some (x, script)) :
+    ∀ (ys : List F) (ds : List (F × F)) (script : List F),
+      (∀ k (hk : k < ys.length) (hd : k < ds.length), I ds[k] ys[k]) →
+      oneTailedSolution ys ds script = some (ys, script)
+  | [], [], _, _ => by simp [oneTailedSolution]
+  | [], _ :: _, _, _ => by simp [oneTailedSolution]
+  | _ :: _, [], _, _ => by simp [oneTailedSolution]
+  | y :: ys, d :: ds, script, h => by
+    have h0 := hfix d.1 d.2 script y (h 0 (by simp) (by simp))
+    have ht := oneTailedSolution_fixed I hfix ys ds script (fun k hk hd =>
+      h (k + 1) (by simpa using hk) (by simpa using hd))
+    simp [oneTailedSolution, h0, ht]
+end
+
+/-! ### the driver -/
+section
+variable {F S : Type}
+
+theorem constrainAll_forall₂ (op : List F → S → Option (List F × S)) (R : List F → List F → Prop)
+    (hop : ∀ sol s y s', op sol s = some (y, s') → R sol y) :
+    ∀ (pop : List (List F)) (s : S) (pop' : List (List F)) (s' : S),
+      constrainAll op pop s = some (pop', s') → List.Forall₂ R pop pop'
+  | [], s, pop', s', h => by
+    simp [constrainAll] at h; obtain ⟨rfl, _⟩ := h; exact .nil
+  | sol :: sols, s, pop', s', h => by
+    simp only [constrainAll] at h
+    cases h1 : op sol s with
+    | none => simp [h1] at h
+    | some r1 =>
+      obtain ⟨y, s1⟩ := r1
+      simp only [h1] at h
+      cases h2 : constrainAll op sols s1 with
+      | none => simp [h2] at h
+      | some r2 =>
+        obtain ⟨ys, s2⟩ := r2
+        simp only [h2, Option.some.injEq, Prod.mk.injEq] at h
+        obtain ⟨rfl, _⟩ := h
+        exact .cons (hop _ _ _ _ h1) (constrainAll_forall₂ op R hop sols s1 ys s2 h2)
+
+/-- Operators that return on every solution of the population without touching the random source. -/
+theorem constrainAll_returns (op : List F → S → Option (List F × S)) :
+    ∀ (pop : List (List F)) (s : S), (∀ sol ∈ pop, ∃ y, op sol s = some (y, s)) →
+      ∃ pop', constrainAll op pop s = some (pop', s)
+  | [], s, _ => ⟨[], rfl⟩
+  | sol :: sols, s, h => by
+    obtain ⟨y, hy⟩ := h sol (by simp)
+    obtain ⟨ys, hys⟩ := constrainAll_returns op sols s (fun t ht => h t (by simp [ht]))
+    exact ⟨y :: ys, by simp [constrainAll, hy, hys]⟩
+
+theorem constrainAll_fixed (op : List F → S → Option (List F × S)) :
+    ∀ (pop : List (List F)) (s : S), (∀ sol ∈ pop, ∀ s, op sol s = some (sol, s)) →
+      constrainAll op pop s = some (pop, s)
+  | [], s, _ => rfl
+  | sol :: sols, s, h => by
+    have h0 := h sol (by simp) s
+    have ht := constrainAll_fixed op sols s (fun t ht s => h t (by simp [ht]) s)
+    simp [constrainAll, h0, ht]
+
+/-- The driver on a non-empty stack: exactly the current population goes through `constrainAll`. -/
+theorem boundaryConstraint_concat (op : List F → S → Option (List F × S)) (below : List (List (List F)))
+    (top : List (List F)) (s : S) :
+    boundaryConstraint op (below ++ [top]) s =
+      match constrainAll op top s with
+      | none => none
+      | some (top', s') => some (below ++ [top'], s') := by
+  simp only [boundaryConstraint, List.getLast?_append, List.getLast?_singleton, Option.some_or,
+    List.dropLast_concat]
+  rcases constrainAll op top s with _ | ⟨t, s1⟩ <;> rfl
+
+theorem boundaryConstraint_nil (op : List F → S → Option (List F × S)) (s : S) :
+    boundaryConstraint op [] s = none := by simp [boundaryConstraint]
+
+theorem boundaryConstraint_some (op : List F → S → Option (List F × S)) (stack stack' : List (List (List F)))
+    (s s' : S) (h : boundaryConstraint op stack s = some (stack', s')) :
+    ∃ below top top', stack = below ++ [top] ∧ stack' = below ++ [top'] ∧
+      constrainAll op top s = some (top', s') := by
+  rcases List.eq_nil_or_concat stack with rfl | ⟨below, top, rfl⟩
+  · simp [boundaryConstraint_nil] at h
+  · simp only [List.concat_eq_append] at h ⊢
+    rw [boundaryConstraint_concat] at h
+    cases hc : constrainAll op top s with
+    | none => simp [hc] at h
+    | some r =>
+      obtain ⟨top', s1⟩ := r
+      simp only [hc, Option.some.injEq, Prod.mk.injEq] at h
+      obtain ⟨rfl, rfl⟩ := h
+      exact ⟨below, top, top', rfl, rfl, hc⟩
+end
+
+/-! ### what the property demands of a repaired solution, and the driver's generic guarantees -/
+section
+variable {F : Type} [LE F]
+
+/-- One coordinate: within ITS bounds, and unchanged if it already was. -/
+def RepairedCoord (d : F × F) (x y : F) : Prop := d.1 ≤ y ∧ y ≤ d.2 ∧ (d.1 ≤ x → x ≤ d.2 → y = x)
+
+/-- One solution: same dimension, every coordinate repaired against the range of its own dimension. -/
+def Repaired (dom : List (F × F)) (sol ys : List F) : Prop :=
+  ys.length = sol.length ∧
+  ∀ k (hk : k < ys.length) (hx : k < sol.length) (hd : k < dom.length), RepairedCoord dom[k] sol[k] ys[k]
+
+def AllInside (dom : List (F × F)) (ys : List F) : Prop :=
+  ∀ k (hk : k < ys.length) (hd : k < dom.length), dom[k].1 ≤ ys[k] ∧ ys[k] ≤ dom[k].2
+
+theorem Repaired.allInside {dom : List (F × F)} {sol ys : List F} (h : Repaired dom sol ys) : AllInside dom ys :=
+  fun k hk hd => ⟨(h.2 k hk (h.1 ▸ hk) hd).1, (h.2 k hk (h.1 ▸ hk) hd).2.1⟩
+
+theorem forall₂_right {α β : Type} {R : α → β → Prop} {l : List α} {l' : List β} (h : List.Forall₂ R l l') :
+    ∀ y ∈ l', ∃ x ∈ l, R x y := by
+  induction h with
+  | nil => simp
+  | cons hxy _ ih =>
+    intro y hy
+    simp only [List.mem_cons] at hy
+    rcases hy with rfl | hy
+    · exact ⟨_, by simp, hxy⟩
+    · obtain ⟨x, hx, hr⟩ := ih y hy
+      exact ⟨x, by simp [hx], hr⟩
+
+/-- The driver's work on the current population, with an operator that repairs (whenever it returns)
+and fixes all-inside solutions: every solution repaired, and a second application changes nothing. -/
+theorem constrainAll_repairs {S : Type} (op : List F → S → Option (List F × S)) (dom : List (F × F))
+    (hop : ∀ sol s y s', op sol s = some (y, s') → Repaired dom sol y)
+    (hfix : ∀ ys s, AllInside dom ys → op ys s = some (ys, s))
+    (below : List (List (List F))) (top top' : List (List F)) (s s' : S)
+    (hc : constrainAll op top s = some (top', s')) :
+    List.Forall₂ (Repaired dom) top top' ∧
+      ∀ s2 : S, boundaryConstraint op (below ++ [top']) s2 = some (below ++ [top'], s2) := by
+  have hr := constrainAll_forall₂ op (Repaired dom) hop top s top' s' hc
+  refine ⟨hr, ?_⟩
+  intro s2
+  have hfixed := constrainAll_fixed op top' s2 (fun y hy t => by
+    obtain ⟨x, _, hx⟩ := forall₂_right hr y hy
+    exact hfix y t hx.allInside)
+  rw [boundaryConstraint_concat, hfixed]
+
+/-- The same from the driver's result: frame, repaired, idempotent. -/
+theorem boundaryConstraint_repairs {S : Type} (op : List F → S → Option (List F × S)) (dom : List (F × F))
+    (hop : ∀ sol s y s', op sol s = some (y, s') → Repaired dom sol y)
+    (hfix : ∀ ys s, AllInside dom ys → op ys s = some (ys, s))
+    (stack stack' : List (List (List F))) (s s' : S) (h : boundaryConstraint op stack s = some (stack', s')) :
+    ∃ below top top', stack = below ++ [top] ∧ stack' = below ++ [top'] ∧
+      List.Forall₂ (Repaired dom) top top' ∧
+      ∀ s2 : S, boundaryConstraint op stack' s2 = some (stack', s2) := by
+  obtain ⟨below, top, top', rfl, rfl, hc⟩ := boundaryConstraint_some op stack stack' s s' h
+  obtain ⟨hr, hid⟩ := constrainAll_repairs op dom hop hfix below top top' s s' hc
+  exact ⟨below, top, top', rfl, rfl, hr, hid⟩
+end
+
 end MahfModel.Boundary
